@@ -68,8 +68,11 @@ def run(ctx, rep):
         for swing in (0, 3, 12, 15):
             s = rand_state(rng); s["swing"] = swing
             cases.append((version, base, s, 123456))
+    wire = []
     for version, plan, want, did in cases:
         obs = E.run_case(ctx.model, rng, version, plan, want, device_id=did)
+        if obs.get("control_packet_v2"):
+            wire.append((want, did, obs))
         key = (version, tuple(sorted(plan.items())), tuple(want[k] for k in SETTABLE))
         rep.case(key, f"v{version}-{plan['seg']}-{plan['extra']}")
         inp = {"version": version, "plan": plan, "state": want, "device_id": did}
@@ -98,3 +101,18 @@ def run(ctx, rep):
         if obs["rejected_frames"]:
             fail("frame-rejected-by-reference-parser", {"count": obs["rejected_frames"]})
     rep.sample({"version": cases[0][0], "plan": cases[0][1], "state": cases[0][2]})
+    # correspondence of the composed client pipeline (C01_apply_*): the V2 packet the real client wrote for the control command
+    # equals  v2_encode ts id (emit n (SetState (apply_ctrl d)))  of the model, for the same attributes, counter, id and timestamp
+    mcases = []
+    for want, did, obs in wire:
+        aux = 2 if want["indep_aux"] else 1 if want["aux"] else 0
+        ops = [10, obs["beep"], 11, want["power"], 12, want["target"], 13, want["mode"], 14, want["fan"], 15, want["swing"],
+               16, want["eco"], 17, want["turbo"], 18, want["freeze"], 19, want["sleep"], 20, want["fahrenheit"],
+               21, want["follow_me"], 22, want["purifier"], 23, want["humidity"], 24, aux]
+        pkt = obs["control_packet_v2"]
+        mcases.append((114, [[obs["counter_before_apply"]], ops, list(pkt[12:20]), E.refpeer.le(did) or [0]]))
+    for (want, did, obs), (st, outs) in zip(wire, ctx.model.batch(mcases)):
+        rep.case(None, "wire-correspondence")
+        if st != 0 or bytes(outs[0]) != obs["control_packet_v2"]:
+            rep.fail("corr", "client-pipeline-bytes", {"state": want, "device_id": did, "counter": obs["counter_before_apply"]},
+                     {"impl": obs["control_packet_v2"].hex(), "model": [st, bytes(outs[0]).hex() if st == 0 else None]})
